@@ -385,7 +385,9 @@ def _split(rng, n_t):
 
 def composed_case(ctx, rng, idx):
     n_t = int(rng.integers(2, 8))
-    blocks = _split(rng, n_t)
+    # (a composite of a single filter is a legitimate wrapper: it still
+    # owes the deferred re-ordering of sort_times)
+    blocks = [n_t] if rng.random() < 0.15 else _split(rng, n_t)
     cnames = [CLASSES[int(rng.integers(len(CLASSES)))] for _ in blocks]
     same = rng.random() < 0.4
     if same:
